@@ -212,6 +212,7 @@ def execute(sc, ctx):
     # every step would hide state that is only wrong between two observations.  Emptiness is therefore tracked by the
     # model, not read from the frame.
     model_empty = {id(f): not np.any(f.data) for f in pool}
+    held = []
     nnoise = 0
     had_signal_only = False
     after_zero = False
@@ -284,9 +285,15 @@ def execute(sc, ctx):
                         ctx.hit("table_share_index" if op["share"] else "table_independent")
                     dist = "chi2" if nk == "chi2" else ("truncated" if (op["with_min"] or op["shipped"]) else "gaussian")
                     kinds.add("obs:" + dist)
+                raw_ret = ret
                 ret = np.asarray(ret)
                 ctx.event(kind, ret)
                 nnoise += 1
+                # what the call returned is the caller's: it neither aliases the frame nor changes later
+                if not ctx.check(not np.shares_memory(raw_ret, fr.data), "alias", "C11/returned_noise_aliases_frame_data",
+                                 "the returned noise array shares memory with frame.data"):
+                    return
+                held.append((raw_ret, np.array(ret, copy=True)))
                 model_empty[id(fr)] = False
                 # the returned array is exactly what was added
                 if not ctx.check(ret.shape == data_before.shape and
@@ -422,6 +429,11 @@ def execute(sc, ctx):
         for f, d in zip(pool, others):
             if f is not fr:
                 ctx.check(np.array_equal(f.data, d), "isolation", "C11/other_frame_changed", "")
+        for r_, snap in held:
+            if not ctx.check(np.array_equal(np.asarray(r_), snap), "held", "C11/returned_noise_changed_by_later_operation",
+                             "a noise array returned earlier no longer holds what was added then"):
+                return
+        del held[:-4]
         if ctx.violations and ctx.stop_on_violation:
             return
     if nnoise >= 2:
